@@ -142,6 +142,8 @@ class Run:
                                 schedule(now + datetime.timedelta(seconds=sj["dt"]), sj["dur"], by=f"ev{e.eid}")
                         if e.dur:
                             await asyncio.sleep(e.dur)
+                        if hi == 0 and e.eid % 5 == 3:
+                            raise RuntimeError("handler fails")      # must not affect the other handler / later items
                     finally:
                         run.inflight -= 1
                         run.rows.append((vt(), "ev", (e.eid, hi), "end", vt_of(e.when), True))
